@@ -15,7 +15,8 @@ use crate::walk::{ans_walk, merge_accs, range_is_inverted, range_walk, Acc, AnsN
 use constriction::stream::model::*;
 use constriction::stream::queue::RangeDecoder;
 use constriction::stream::stack::AnsCoder;
-use constriction::stream::Decode;
+use constriction::stream::{Code, Decode};
+use rayon::prelude::*;
 use serde_json::json;
 
 pub const NAMES: [&str; 10] = [
@@ -313,12 +314,42 @@ fn diagnostics(report: &Report, tier: Tier) {
         "reference_distributions": ["uniform", "the model itself", "one-hot", "skewed", "two-point with zeros"], "values_compared": n}));
 }
 
+/// raw-binary loads: for every word string, `from_binary(data)` reports exactly W * len valid bits, is not
+/// empty, and its size queries agree with what exporting it returns (data followed by the marker word)
+fn binary_loads<C: Cfg>(report: &Report, letters: &[u128], max_len: usize, label: &str) {
+    let mut datas: Vec<Vec<u128>> = vec![vec![]];
+    let mut frontier: Vec<Vec<u128>> = vec![vec![]];
+    for _ in 0..max_len {
+        frontier = frontier.iter().flat_map(|s| letters.iter().map(move |&w| { let mut t = s.clone(); t.push(w); t })).collect();
+        datas.extend(frontier.iter().cloned());
+    }
+    let bad: Vec<(String, String)> = datas.par_iter().flat_map_iter(|d| {
+        let mut bad = vec![];
+        let words: Vec<C::W> = d.iter().map(|&w| C::w(w)).collect();
+        let c = AnsCoder::<C::W, C::S>::from_binary(words).unwrap();
+        let export = to_u128(&c.clone().into_compressed().unwrap());
+        let mut fail = |what: &str, detail: String| bad.push((format!("AnsCoder::from_binary size queries | {what}"), format!("{}: data {:x?}: {detail}", C::NAME, d)));
+        if c.num_valid_bits() != d.len() * C::WBITS as usize { fail("num_valid_bits differs from the size of the loaded binary data", format!("{} bits for {} words", c.num_valid_bits(), d.len())); }
+        if c.is_empty() { fail("coder loaded from raw binary data reports empty", String::new()); }
+        if c.num_words() != export.len() || c.num_bits() != export.len() * C::WBITS as usize { fail("num_words / num_bits differ from the length of into_compressed()", format!("{} words, {} bits, export {:x?}", c.num_words(), c.num_bits(), export)); }
+        let mut expect = d.clone(); expect.push(1);
+        if export != expect { fail("export of a coder loaded from raw binary data is not the data followed by the marker word", format!("{:x?}", export)); }
+        bad
+    }).collect();
+    report.count("raw_binary_loads", datas.len() as u64);
+    report.count("raw_binary_loads_ending_in_zero_words", datas.iter().filter(|d| d.last() == Some(&0)).count() as u64);
+    report.add_states(datas.len() as u64);
+    report.add_transitions(4 * datas.len() as u64);
+    report.section(json!({"part": "raw-binary loads", "cfg": C::NAME, "data": label, "data_strings": datas.len()}));
+    for (i, d) in bad { report.violation(Violation { identity: i, detail: d, case: json!({"kind": "none"}) }); }
+}
+
 pub fn run(report: &Report) {
     use crate::models::*;
     let q = report.tier == Tier::Quick;
     report.bound("(a) every node of the range-coder sequence walk and of the ANS history walk (from empty / imported / raw-binary words) up to the listed depths; (b) every model of the listed exhaustive small spaces x 5 reference distributions");
     report.assume("num_valid_bits after from_binary is also asserted on every case of C04, bit-coder len/is_empty on every transition of C16");
-    for n in ["range_nodes_inverted", "range_decoder_states_with_whole_words_left", "ans_nodes_empty", "ans_decoder_states_with_whole_words_left", "ans_nodes_from_raw_binary", "diagnostic_values_compared"] {
+    for n in ["range_nodes_inverted", "range_decoder_states_with_whole_words_left", "ans_nodes_empty", "ans_decoder_states_with_whole_words_left", "ans_nodes_from_raw_binary", "diagnostic_values_compared", "raw_binary_loads_ending_in_zero_words"] {
         report.require(n);
     }
     diagnostics(report, report.tier);
@@ -331,6 +362,22 @@ pub fn run(report: &Report) {
     explore_range::<U16U64>(report, &small_alphabet::<U16U64>(), if q { 4 } else { 5 }, "mixed-precision-14");
     explore_range::<U32U64>(report, &small_alphabet::<U32U64>(), if q { 5 } else { 6 }, "mixed-precision-14");
     explore_range::<U64U128>(report, &small_alphabet::<U64U128>(), if q { 4 } else { 5 }, "mixed-precision-14");
+    {
+        let all8: Vec<u128> = (0..=255u128).collect();
+        let few8: Vec<u128> = vec![0x00, 0x01, 0x80, 0xff];
+        let few16: Vec<u128> = vec![0, 1, 0x8000, 0xffff];
+        let few32: Vec<u128> = vec![0, 1, 0x8000_0000, 0xffff_ffff];
+        let few64: Vec<u128> = vec![0, 1, 1 << 63, u64::MAX as u128];
+        binary_loads::<U8U16>(report, &all8, 2, "all u8 strings, len 0..=2");
+        binary_loads::<U8U32>(report, &all8, 2, "all u8 strings, len 0..=2");
+        binary_loads::<U8U16>(report, &few8, if q { 7 } else { 9 }, "strings over {00,01,80,ff}");
+        binary_loads::<U8U32>(report, &few8, if q { 7 } else { 9 }, "strings over {00,01,80,ff}");
+        binary_loads::<U8U64>(report, &few8, if q { 8 } else { 10 }, "strings over {00,01,80,ff} (9 and more words matter: S/W = 8)");
+        binary_loads::<U16U32>(report, &few16, 6, "strings over 4 boundary words, len 0..=6");
+        binary_loads::<U16U64>(report, &few16, 7, "strings over 4 boundary words, len 0..=7");
+        binary_loads::<U32U64>(report, &few32, 6, "strings over 4 boundary words, len 0..=6");
+        binary_loads::<U64U128>(report, &few64, 6, "strings over 4 boundary words, len 0..=6");
+    }
     let empty: Vec<Vec<u128>> = vec![vec![]];
     explore_ans::<U8U16>(report, &empty, &small_alphabet::<U8U16>(), if q { 6 } else { 7 }, "mixed-precision-14");
     explore_ans::<U8U32>(report, &empty, &small_alphabet::<U8U32>(), if q { 6 } else { 7 }, "mixed-precision-14");
